@@ -212,6 +212,14 @@ func RunCheck(propFile, tier string, only string, verbose bool) int {
 				if verbose {
 					r := res[i]
 					fmt.Printf("explored %s: paths=%d obligations=%d errors=%d (%.1fs, %d branch queries %.1fs)\n", r.Name, r.Paths, len(r.Obligations), len(r.Errors), r.Secs, r.BranchQueries, r.BranchSecs)
+					for gname, pkgPath := range r.UninitReads {
+						fmt.Printf("  uninitialised global %s (package %s not in the init list)\n", gname, pkgPath)
+					}
+					for i, o := range r.Observed {
+						if i < 40 {
+							fmt.Printf("  observed %s = %s\n", o.Label, truncate(o.Val, 300))
+						}
+					}
 				}
 			}()
 		}
@@ -227,6 +235,21 @@ func RunCheck(propFile, tier string, only string, verbose bool) int {
 			}
 			for _, e := range r.Errors {
 				inconclusive = append(inconclusive, r.Name+": "+firstLine(e))
+			}
+			{
+				pk := map[string][]string{}
+				for gname, pkgPath := range r.UninitReads {
+					pk[pkgPath] = append(pk[pkgPath], gname)
+				}
+				var pkgs []string
+				for pth := range pk {
+					pkgs = append(pkgs, pth)
+				}
+				sort.Strings(pkgs)
+				for _, pth := range pkgs {
+					sort.Strings(pk[pth])
+					inconclusive = append(inconclusive, fmt.Sprintf("%s: uses %s, assigned by the initialiser of %s, which was not interpreted (add the package to the init list)", r.Name, strings.Join(pk[pth], ", "), pth))
+				}
 			}
 			for _, ob := range r.Obligations {
 				ob.group = g
